@@ -71,7 +71,7 @@ func checkC02(c *Ctx) {
 		if ok {
 			continue
 		}
-		sigs, note := fnAttribute(r)
+		sigs, note := fnAttribute(r, fnLawGo)
 		for _, sig := range sigs {
 			fnClusters[sig]++
 			if os.Getenv("VERIF_FMT_DUMP") != "" && fnClusters[sig] <= 5 {
@@ -92,6 +92,11 @@ func checkC02(c *Ctx) {
 // report turns verdicts into failures for the laws of one property.
 func (fr *fmtRun) report(prop string, verdicts map[int]fmtVerdict) {
 	c := fr.c
+	for _, f := range c.ledger {
+		if f.Status == "known" {
+			attrPreferred[f.ID] = true
+		}
+	}
 	clusters := map[string][]string{}
 	type akey struct {
 		law  int
@@ -190,7 +195,10 @@ func replayFmt(rp map[string]any) (bool, string) {
 	via, _ := rp["via"].(string)
 	if rp["check"] == "fn" {
 		for _, r := range fnRecords(src) {
-			if r.Via == via && !fnLawGo(&r) {
+			if r.Via == via && rp["property"] == "C03" && !fnIdemGo(&r) {
+				return false, fmt.Sprintf("%s text %q of %q is printed again as %q", via, r.Text, src, r.Text2)
+			}
+			if r.Via == via && rp["property"] != "C03" && !fnLawGo(&r) {
 				return false, fmt.Sprintf("%s text %q does not parse back to the function of %q", via, r.Text, src)
 			}
 		}
